@@ -30,7 +30,7 @@ type c14Spec struct {
 
 type c14Harness struct{}
 
-var c14Kinds = []string{"lifetime-expiry", "lifetime-expiry", "lifetime-host", "unique", "burst-sessions", "burst-sessions", "burst-receivers", "burst-receivers", "burst-conns", "msgsize", "msgrate"}
+var c14Kinds = []string{"lifetime-expiry", "lifetime-expiry", "lifetime-host", "unique", "burst-sessions", "burst-sessions", "burst-receivers", "burst-receivers", "burst-conns", "msgsize", "msgrate", "reconnect-receivers"}
 
 func (c14Harness) Gen(r *verifsim.SplitMix, tier string, idx int) any {
 	sp := c14Spec{Seed: r.Next(), SegMax: []int{64, 1400, 65536}[r.Intn(3)]}
@@ -50,6 +50,9 @@ func (c14Harness) Gen(r *verifsim.SplitMix, tier string, idx int) any {
 		if sp.Limit > 0 {
 			sp.N = sp.Limit + 1 + r.Intn(3)
 		}
+	case "reconnect-receivers":
+		sp.Limit = 2 + r.Intn(3)
+		sp.N = 2 + r.Intn(3) // newcomers tried after the reconnect
 	case "msgsize":
 		sp.Limit = []int{256, 1024, 4096}[r.Intn(3)]
 	case "msgrate":
@@ -114,7 +117,7 @@ func (c14Harness) Run(spec any) (res verifsim.RunResult) {
 		lowCode = true
 	case "burst-sessions":
 		flags = append(flags, "--max-sessions", fmt.Sprint(sp.Limit))
-	case "burst-receivers":
+	case "burst-receivers", "reconnect-receivers":
 		flags = append(flags, "--max-receivers-per-sender", fmt.Sprint(sp.Limit))
 	case "burst-conns":
 		flags = append(flags, "--max-ws-connections", fmt.Sprint(sp.Limit), "--max-receivers-per-sender", "0")
@@ -340,6 +343,68 @@ func (c14Harness) Run(spec any) (res verifsim.RunResult) {
 					addV("limit-exceeded", name, fmt.Sprintf("--%s %d but %d connections were admitted at once (%d concurrent receivers)", name, sp.Limit, total, sp.N))
 				}
 			}()
+		case "reconnect-receivers":
+			// receivers up to one below the limit; one of them connects again under the same
+			// peer id while its first connection is open, then the first one closes; then
+			// newcomers arrive. The receivers connected at once never exceed the limit.
+			verifsim.Go("K", func() {
+				defer done.Add(1)
+				si, err := w.createSession("10.0.3.1", "")
+				if err != nil || si.Status != 201 {
+					addV("session-create-failed", sp.Kind, fmt.Sprintf("status=%d err=%v", si.Status, err))
+					return
+				}
+				st, host := try("10.0.3.1", si.Code, "host", "sender")
+				if st != 101 {
+					addV("code-refused-while-live", sp.Kind, fmt.Sprintf("host refused: HTTP %d", st))
+					return
+				}
+				w.startReader("K>hostread", host)
+				type rc struct {
+					c   *websocket.Conn
+					log *wsLog
+				}
+				var open []rc
+				dial := func(i int, id string) bool {
+					st, c := try(fmt.Sprintf("10.0.4.%d", i+1), si.Code, id, "receiver")
+					if st != 101 {
+						return false
+					}
+					open = append(open, rc{c, w.startReader(fmt.Sprintf("K>r%d", len(open)), c)})
+					return true
+				}
+				for i := 0; i < sp.Limit-1; i++ {
+					if !dial(i, fmt.Sprintf("r%d", i)) {
+						addV("limit-refused-below-limit", sp.Kind, fmt.Sprintf("--max-receivers-per-sender %d: receiver %d of %d refused", sp.Limit, i+1, sp.Limit-1))
+						return
+					}
+				}
+				time.Sleep(50 * time.Millisecond)
+				again := dial(20, "r0") // same peer id, first connection still open
+				time.Sleep(50 * time.Millisecond)
+				first := open[0]
+				first.c.Close()
+				open = open[1:]
+				time.Sleep(200 * time.Millisecond)
+				for i := 0; i < sp.N; i++ {
+					dial(30+i, fmt.Sprintf("n%d", i))
+					time.Sleep(20 * time.Millisecond)
+				}
+				time.Sleep(200 * time.Millisecond)
+				alive := 0
+				for _, o := range open {
+					if _, closed := o.log.snapshot(); !closed {
+						alive++
+					}
+				}
+				res.Counters["reconnect_scenarios"]++
+				if again {
+					res.Counters["reconnect_admitted"]++
+				}
+				if alive > sp.Limit {
+					addV("limit-exceeded", "max-receivers-per-sender:after-reconnect", fmt.Sprintf("--max-receivers-per-sender %d, but %d receiver connections are open at once after a receiver connected again under its peer id, its first connection closed and %d newcomers tried", sp.Limit, alive, sp.N))
+				}
+			})
 		case "msgsize", "msgrate":
 			verifsim.Go("K", func() {
 				defer done.Add(1)
